@@ -74,6 +74,10 @@ def combinators(ctx):
     out.append(("scan[aff x3]", 2, None, B.Scan(L["eqx"].filter_vmap(lambda k: B.Affine(jr.normal(k, (2,)), jnp.exp(0.5 * jr.normal(k, (2,)))))(jr.split(jr.PRNGKey(3), 3)))))
     out.append(("coupling-cond", 3, 2, perturb(B.Coupling(jr.PRNGKey(1), transformer=B.Affine(), untransformed_dim=1, dim=3, cond_dim=2, nn_width=6, nn_depth=1), rng, 0.5)))
     out.append(("maf-rqs-cond", 3, 2, perturb(B.MaskedAutoregressive(jr.PRNGKey(2), transformer=B.RationalQuadraticSpline(knots=3, interval=2), dim=3, cond_dim=2, nn_width=6, nn_depth=1), rng, 0.5)))
+    # scalar constructor arguments given as NumPy scalars (np.float64 IS a python float): every inexact ARRAY leaf of the object is a
+    # trainable parameter (what fit_to_data updates), so the perturbation reaches whatever the constructor left as a NumPy scalar
+    # (defect D11: LeakyTanh's intercept moved away from tanh(max_val) - linear_grad * max_val; the map stopped being a bijection)
+    out.append(("chain[leaky(np.float64 max_val),affine]-perturbed", 3, None, perturb(B.Chain([B.LeakyTanh(np.float64(1.25), (3,)), aff((3,))]), rng, 0.5)))
     # unusual but legitimate configurations (large dimension, many knots / children / layers, rank 3, depth-0 and deep conditioners)
     big = []
     big.append(("affine-dim400-small-scales", 400, None, L["eqx"].tree_at(lambda a: a.scale, B.Affine(jnp.asarray(rng.normal(0, 1, 400)), jnp.ones(400)),
